@@ -210,11 +210,32 @@ func runC18(args []string) {
 				if err != nil {
 					fatal("marshal set: %v", err)
 				}
+				req, _ := c["req"].(string)
+				if req == "" && c18Mix(n*3+1)%3 == 0 {
+					// the file also lists an entry that is NOT a key (an EC key without coordinates / an unknown key type): whatever
+					// a loader makes of such an entry, a request that names no key cannot be answered from this file - it holds
+					// more than one entry, or nothing that is a key
+					var file struct {
+						Keys []json.RawMessage `json:"keys"`
+					}
+					if err := json.Unmarshal(b, &file); err != nil {
+						fatal("re-reading the set: %v", err)
+					}
+					junk := json.RawMessage([]string{`{"kty":"EC","crv":"P-521","kid":"junk"}`, `{"kty":"XYZ","kid":"junk"}`, `{"kty":"EC","crv":"P-521"}`}[c18Mix(n*5+2)%3])
+					if c18Mix(n*11+3)%2 == 0 {
+						file.Keys = append([]json.RawMessage{junk}, file.Keys...)
+					} else {
+						file.Keys = append(file.Keys, junk)
+					}
+					if b, err = json.Marshal(file); err != nil {
+						fatal("marshal set: %v", err)
+					}
+					ev["junk"] = true
+				}
 				path := filepath.Join(tmp, "set.json")
 				if err := os.WriteFile(path, b, 0o600); err != nil {
 					fatal("write: %v", err)
 				}
-				req, _ := c["req"].(string)
 				p, msg := guarded(func() {
 					got, err := jwkutil.LoadKey(path, req)
 					ev["ok"] = err == nil
